@@ -55,8 +55,8 @@ func parseNames(s string) []string {
 // labelMaxHangs hangs the remaining operations are not executed any more
 // (each abandoned worker keeps a CPU busy).
 const (
-	labelOpTimeout = 2 * time.Second
-	labelMaxHangs  = 6
+	labelOpTimeout = 10 * time.Second
+	labelMaxHangs  = 3
 )
 
 type labelWorker struct {
